@@ -27,6 +27,7 @@
 import PS.Proofs.Sampler
 import PS.Proofs.SamplerGrammar
 import PS.Proofs.SamplerU
+import Mathlib.Data.List.Nodup
 namespace PS.Props.C09
 open PS PS.Sampler
 
@@ -239,6 +240,39 @@ example : (sampleProgramU exU [0] 5 ⟨[0], [(0, [0]), (1, [0, 0]), (2, [0])], [
     some (Tree.node 10 [Tree.leaf 12, Tree.leaf 11]) := by
   decide +kernel
 example : derivesU exU 0 (Tree.node 10 [Tree.leaf 12, Tree.leaf 11]) = true := by decide +kernel
+
+/-! ## Seeds -/
+
+/-- `ProbUGrammar.init_sampling(seed)` gives pairwise distinct seeds to the rule samplers, the start
+    sampler and the alternative samplers (two alias samplers with equal seeds return the same
+    stream, which would contradict the independence assumed by `C09_sample_dist`) -/
+theorem C09_seeds_distinct (seed nTags nRules : Nat) : (allSeedsU seed nTags nRules).Nodup := by
+  unfold allSeedsU ruleSeedsU startSeedU altSeedsU
+  rw [List.nodup_append]
+  refine ⟨?_, ?_, ?_⟩
+  · exact List.Nodup.map (fun a b h => by simpa using h) List.nodup_range
+  · rw [List.nodup_cons]
+    refine ⟨?_, ?_⟩
+    · simp only [List.mem_map, List.mem_range, not_exists, not_and]
+      intro k _ h; omega
+    · exact List.Nodup.map (fun a b h => by simpa using h) List.nodup_range
+  · intro a ha b hb
+    simp only [List.mem_map, List.mem_range] at ha
+    obtain ⟨i, hi, rfl⟩ := ha
+    simp only [List.mem_cons, List.mem_map, List.mem_range] at hb
+    rcases hb with rfl | ⟨k, _, rfl⟩ <;> omega
+
+/-- the same for `ProbDetGrammar.init_sampling(seed)` -/
+theorem C09_det_seeds_distinct (seed nTags : Nat) : (detSeeds seed nTags).Nodup :=
+  List.Nodup.map (fun a b h => by simpa using h) List.nodup_range
+
+example : allSeedsU 5 3 2 = [5, 6, 7, 8, 9, 10] := by decide
+
+/-- finding C09-F4 (repaired by proposed_fixes/C09-F4.diff): with the former assignment
+    `seed + 7 * i` for the alternatives of the i-th non-terminal, a grammar with 8 non-terminals
+    already has two samplers with the same seed (alternatives of the 2nd = rules of the 8th, and
+    alternatives of the 1st = rules of the 1st) -/
+theorem finding_seed_collision : ¬ (allSeedsOld 5 [1, 1, 1, 1, 1, 1, 1, 2]).Nodup := by decide
 
 /-- same seed ⇒ same sequence, in the model: the sequence of sampled programs is a function of
     the grammar and of the draw streams only (there is no other state).  On the implementation
